@@ -19,9 +19,11 @@ def gen_space(r, vz, *, nmax=5, allow_log=True, only=None, float_only=False, boo
       kind = 'b'
     if kind == 'f':
       sc = r.choice(['LINEAR', 'LINEAR', 'LOG', 'REVERSE_LOG', None]) if allow_log else r.choice(['LINEAR', None])
-      shape = r.choice(['unit', 'neg', 'huge', 'tiny', 'single', 'odd', 'narrow', 'narrow2'])
+      shape = r.choice(['unit', 'neg', 'huge', 'tiny', 'single', 'odd', 'narrow', 'narrow2', 'near32', 'near64'])
       lo, hi = {'unit': (0.0, 1.0), 'neg': (-5.0, -1.5), 'huge': (-1e6, 3e7), 'tiny': (1e-7, 3e-7), 'single': (2.5, 2.5),
-                'odd': (0.1, 0.3), 'narrow': (0.9, 0.999), 'narrow2': (2.0, 3.0)}[shape]
+                'odd': (0.1, 0.3), 'narrow': (0.9, 0.999), 'narrow2': (2.0, 3.0),
+                # distinct bounds whose logarithms coincide in float32 / float64
+                'near32': (1000.0, 1000.0001), 'near64': (1e15, 1e15 + 1.0)}[shape]
       if sc in ('LOG', 'REVERSE_LOG') and lo <= 0:
         lo, hi = r.choice([(1e-4, 1e2), (0.1, 0.7), (2.5, 2.5), (1.0, 8.0)])
       kw = {}
